@@ -88,10 +88,25 @@ def run_one(m, slot):
         assert s[m['b']:m['e']] == m['from'], (s[m['b']:m['e']], m)
         open(p, 'w').write(s[:m['b']] + m['to'] + s[m['e']:])
         env = dict(os.environ, CARGO_TARGET_DIR='/verif/.cache/mut-target-%d' % slot, CARGO_NET_OFFLINE='true')
+        # own process group: a mutant that makes a test spin must not leave its test binary behind (it would eat cores for hours)
+        import signal
+        pr = subprocess.Popen(['cargo', 'test', '--offline', '--lib'], cwd=w + '/repo', env=env, stdout=subprocess.PIPE, stderr=subprocess.PIPE, text=True, start_new_session=True)
         try:
-            t = subprocess.run(['cargo', 'test', '--offline', '--lib'], cwd=w + '/repo', env=env, capture_output=True, text=True, timeout=600)
+            so, se = pr.communicate(timeout=600)
         except subprocess.TimeoutExpired:
+            os.killpg(pr.pid, signal.SIGKILL)
+            pr.communicate()
             return dict(m, status='tests-hang')
+        finally:
+            try:
+                os.killpg(pr.pid, signal.SIGKILL)
+            except ProcessLookupError:
+                pass
+
+        class _T:
+            pass
+        t = _T()
+        t.returncode, t.stdout, t.stderr = pr.returncode, so, se
         if t.returncode != 0:
             st = 'no-compile' if 'error' in t.stderr and 'test result' not in t.stdout else 'killed-by-tests'
             return dict(m, status=st)
